@@ -529,7 +529,18 @@ func (i *IniParser) parse(ini *ini) error {
 
 	var quotesLookup = make(map[*Option]bool)
 
-	for name, section := range ini.Sections {
+	// apply the sections in a fixed order: an option set in several
+	// sections must not depend on map iteration order
+	sectionNames := make([]string, 0, len(ini.Sections))
+
+	for name := range ini.Sections {
+		sectionNames = append(sectionNames, name)
+	}
+
+	sort.Strings(sectionNames)
+
+	for _, name := range sectionNames {
+		section := ini.Sections[name]
 		groups := i.matchingGroups(name)
 
 		if len(groups) == 0 {
